@@ -15,12 +15,12 @@ pub struct Case {
 pub fn cases(ctx: &Ctx) -> Vec<Case> {
     let mut out = vec![];
     let mut r = Rng::new(ctx.seed ^ 0xC01);
-    for i in 0..ctx.n(320, 24_000) {
+    for i in 0..ctx.n(3000, 150_000) {
         let mut rr = r.fork(i as u64);
         out.push(Case { id: format!("rand-{i}"), scn: gen_c01_space(&mut rr, 600) });
     }
     // long histories: the 128-slot input rings wrap dozens of times
-    for i in 0..ctx.n(6, 300) {
+    for i in 0..ctx.n(30, 1500) {
         let mut rr = r.fork(0x1000_0000 + i as u64);
         let frames = if ctx.quick() { 2000 } else { rr.pick(&[2000, 6000]) };
         let mut s = gen_c01_space(&mut rr, frames);
@@ -88,7 +88,7 @@ pub fn check(ctx: &Ctx) -> i32 {
     let res = par_run(ctx, &cs, &|c: &Case| c.id.clone(), &run_case);
     let meta = Meta {
         level: "exploration",
-        rule: "random scenarios from C01's space (6 topologies of 2-4 peers with 1-2 local players, window 1..=12, delay 0..=4, sparse on/off, both predictors, sticky inputs 1/3/10, per-link loss/dup/latency/jitter, outages by message kind, skew, pauses, desync detection on/off; 600-frame and 2000/6000-frame histories). After every Ok advance_frame every newly confirmed frame and every re-simulated confirmed frame is compared with the truth model and the serial replay; afterwards peers are compared pairwise. Non-trivial: >=256 frames confirmed on every peer, >=1 rollback of depth >=2, >=1 re-simulated frame, and on faulty links >=1 packet dropped/duplicated/reordered. Distinct: configuration bucket + hash of request traces and of the per-receiver packet schedule.".into(),
+        rule: "random scenarios from C01's space (all assignments of 1-2 local players to 2-4 peers, window 1..=12, delay 0..=4, sparse on/off, both predictors, sticky inputs 1/3/10, per-link loss/dup/latency/jitter, outages by message kind, skew, pauses, desync detection on/off; 600-frame and 2000/6000-frame histories). After every Ok advance_frame every newly confirmed frame and every re-simulated confirmed frame is compared with the truth model and the serial replay; afterwards peers are compared pairwise. Non-trivial: >=256 frames confirmed on every peer, >=1 rollback of depth >=2, >=1 re-simulated frame, and on faulty links >=1 packet dropped/duplicated/reordered. Distinct: configuration bucket + hash of request traces and of the per-receiver packet schedule.".into(),
         assumptions: vec![
             "virtual clock hook replaces instant::Instant (verif-hooks feature)".into(),
             "harness game, truth model (15 lines) and simulated network are trusted".into(),
